@@ -60,10 +60,102 @@ PROPS["C11"] = {
 
 PROPS["C14"] = {
     "level": "proof",
-    "verus": {},
+    "verus": {"propset": ["CodePage::from_id", "CodePage::id", "lemma_cp_roundtrip", "lemma_cp_of_id"]},
     "assumptions": [
         "the encoding_rs tables ARE the Windows code pages their names designate and are self-inverse on representable characters (dependency data; the per-character law over 1,112,064 x 26 is NOT claimed)",
         "28591 (ISO-8859-1) -> WINDOWS_1252 is accepted: encoding_rs, the stated oracle, has no separate ISO-8859-1 table",
+    ],
+}
+
+POOL_FNS = ["StringRef::number", "StringRef::index", "StringPool::get", "StringPool::refcount",
+            "StringPool::decref", "ValueRef::create", "ValueRef::remove"]
+SUMMARY_FNS = ["PropertySet::codepage", "PropertySet::set_codepage", "PropertySet::get", "PropertySet::set",
+               "PropertySet::remove", "CodePage::from_id", "CodePage::id", "lemma_cp_roundtrip", "lemma_i16_u16",
+               "SummaryInfo::codepage", "SummaryInfo::set_codepage",
+               "SummaryInfo::author", "SummaryInfo::set_author", "SummaryInfo::clear_author",
+               "SummaryInfo::comments", "SummaryInfo::set_comments", "SummaryInfo::clear_comments",
+               "SummaryInfo::creating_application", "SummaryInfo::set_creating_application", "SummaryInfo::clear_creating_application",
+               "SummaryInfo::subject", "SummaryInfo::set_subject", "SummaryInfo::clear_subject",
+               "SummaryInfo::title", "SummaryInfo::set_title", "SummaryInfo::clear_title",
+               "SummaryInfo::creation_time", "SummaryInfo::set_creation_time", "SummaryInfo::clear_creation_time",
+               "SummaryInfo::word_count", "SummaryInfo::set_word_count", "SummaryInfo::clear_word_count"]
+
+PROPS["C10"] = {
+    "level": "proof",
+    "verus": {"propset": SUMMARY_FNS,
+              "timestamp": ["timestamp_from_system_time", "system_time_from_timestamp",
+                            "Timestamp::from_system_time", "Timestamp::to_system_time", "lemma_resolution"]},
+    "assumptions": [
+        "vstd's BTreeMap model (insert/get/remove on the map view)",
+        "architecture/language template split and merge (split_once, splitn, format!) and set_uuid/uuid are NOT covered",
+        "string setters: the stored text is `.into()` of the argument (Into<String> unspecified); only the frame is proved for them",
+        "PropertySet::write offsets over the real BTreeMap: bounded Kani harness in the thorough tier only; the per-value size obligation (propval_lpstr_size, propval_fixed_*) is complete",
+    ],
+}
+
+PROPS["C06"] = {
+    "level": "proof",
+    "verus": {},
+    "assumptions": [
+        "create_table_with_name calls Column::is_storable() for every column and writes Column::bitfield() into _Columns.Type; Package::open passes that word to with_bitfield (call sites are cfb code, not covered)",
+        "the _Validation row construction / re-derivation (ranges, enumerations joined by ';', key annotations) is NOT covered",
+    ],
+}
+
+PROPS["C17"] = {
+    "level": "proof",
+    "verus": {},
+    "assumptions": [
+        "std's binary_search_by_key returns Ok(i) only with key(i) == target and Err only when the target is absent from a sorted slice (the table's sortedness follows from lang_tag_matches_table holding for every code)",
+        "from_tag is checked only on the tags listed in the bounded harnesses (one from_tag call costs CBMC 20-60 s); arbitrary tag strings and the full table are NOT covered",
+    ],
+}
+
+PROPS["C01"] = {
+    "level": "proof",
+    "verus": {"pool": POOL_FNS},
+    "assumptions": [
+        "only the encode/decode pairs the whole-history statement rests on are decided; finisher/flush/drop logic, crash points, Package::open reconstruction, save/reopen idempotence and streams need the cfb container and are NOT covered",
+        "cfb stores and returns stream bytes faithfully",
+        "StringPool::incref is a trusted contract in the Verus group (iter_mut().enumerate()); checked bounded by kani:pool_incref_2slots",
+    ],
+}
+
+PROPS["C02"] = {
+    "level": "proof",
+    "verus": {"streamname": ["from_b64", "decode", "lemma_dec_bits"]},
+    "assumptions": [
+        "readers are checked one by one against format specs written in the harnesses; the composition in Package::open, absent _Validation, and 'changes preserve untouched content' (exec / cfb) are NOT covered",
+    ],
+}
+
+PROPS["C08"] = {
+    "level": "proof",
+    "verus": {"pool": POOL_FNS},
+    "assumptions": [
+        "that Delete/Update::exec and drop_table call ValueRef::remove once per released cell is NOT covered (read: drop_table does not); catalog-table consistency is NOT covered",
+        "StringPool::incref is a trusted contract in the Verus group; checked bounded by kani:pool_incref_2slots",
+    ],
+}
+
+PROPS["C09"] = {
+    "level": "proof",
+    "verus": {"pool": ["StringRef::number", "StringRef::index", "StringPool::get", "StringPool::refcount"],
+              "timestamp": ["system_time_from_timestamp", "timestamp_delta_to_duration"],
+              "streamname": ["decode", "from_b64"]},
+    "assumptions": [
+        "only the readers in reach are decided (cell, reference, type word, pool header/data, property values); the unwrap()s on catalog cells in Package::open, exec call sites, the FFI expect, and hangs/aborts from huge allocation requests are NOT covered",
+    ],
+}
+
+PROPS["C19"] = {
+    "level": "proof",
+    "verus": {"exprfmt": ["BinOp::precedence", "Ast::format_with_precedence", "Ast::fmt", "lemma_show_denotes"]},
+    "assumptions": [
+        "fmt::Formatter is instantiated with a sink that records one text segment per write_str call; each segment is lexed as written",
+        "Value's Display impl emits one literal segment (uninterpreted text); string literals needing escapes are excluded by the statement",
+        "derivations of the stratified, left-associative ladder grammar are unique (standard fact), so 'has a derivation whose tree is t' means 'is read as t'",
+        "Display of Select/Join/Insert/Update/Delete is NOT covered",
     ],
 }
 
